@@ -1,6 +1,7 @@
 package main
 
 import (
+	"go/token"
 	"strings"
 
 	"golang.org/x/tools/go/ssa"
@@ -9,7 +10,7 @@ import (
 func init() {
 	register(&Rule{
 		ID:    "C03.errors",
-		Props: []string{"C03", "C08", "C05"},
+		Props: []string{"C03", "C08", "C05", "C04", "C06", "C07", "C01", "C02"},
 		Doc:   "error discipline: no error returned by a repository function (Validate, validateRing, the parser/lexer routines, constructors, set operations…) or by encoding/json is discarded — the error component of every such call is extracted and used (tested, returned or wrapped). The one reviewed idiom: RangeSearch/PrioritySearch whose callback can only return nil or rtree.Stop (then the search cannot fail)",
 		Floor: 150,
 		Run:   runC03Errors,
@@ -80,6 +81,12 @@ func runC03Errors(c *Ctx) {
 				}
 			}
 			if used {
+				fres := f.Signature.Results()
+				canPropagate := fres.Len() > 0 && isErrorType(fres.At(fres.Len()-1).Type())
+				if why := testedButIgnored(call, res.Len()); why != "" && canPropagate {
+					c.Bad(call.Pos(), fn, construct, "the error is only compared with nil and then dropped: "+why+" — a failed validation/parse step is silently treated as success")
+					return
+				}
 				c.OK(call.Pos(), fn, construct, "error is extracted and used")
 				return
 			}
@@ -98,3 +105,81 @@ func runC03Errors(c *Ctx) {
 		c.Errorf("only %d error-returning call sites found", n)
 	}
 }
+
+// testedButIgnored: every use of the call's error result is a comparison with
+// nil, and on some such comparison the non-nil branch rejoins the normal flow
+// without the error having been returned, passed on, stored or panicked with.
+func testedButIgnored(call *ssa.Call, nres int) string {
+	var errVals []ssa.Value
+	if nres == 1 {
+		errVals = append(errVals, call)
+	} else {
+		for _, r := range *call.Referrers() {
+			if ex, ok := r.(*ssa.Extract); ok && ex.Index == nres-1 {
+				errVals = append(errVals, ex)
+			}
+		}
+	}
+	var cmps []*ssa.BinOp
+	for _, e := range errVals {
+		for _, r := range *e.Referrers() {
+			switch x := r.(type) {
+			case *ssa.BinOp:
+				if (x.Op == token.EQL || x.Op == token.NEQ) && (isNilConst(x.X) || isNilConst(x.Y)) {
+					cmps = append(cmps, x)
+					continue
+				}
+				return ""
+			case *ssa.DebugRef:
+				continue
+			default:
+				return "" // returned, passed on, stored, merged …: propagating use
+			}
+		}
+	}
+	for _, cmp := range cmps {
+		live := 0
+		for _, r := range *cmp.Referrers() {
+			if _, dbg := r.(*ssa.DebugRef); !dbg {
+				live++
+			}
+		}
+		if live == 0 {
+			return "the comparison decides nothing (both branches are the same code)"
+		}
+		for _, r := range *cmp.Referrers() {
+			ifi, ok := r.(*ssa.If)
+			if !ok {
+				return "" // the comparison is used as a value
+			}
+			b := ifi.Block()
+			t := b.Succs[0]
+			f := b.Succs[1]
+			if cmp.Op == token.EQL {
+				t, f = f, t
+			}
+			// t: the error is non-nil
+			if len(t.Preds) != 1 {
+				// the non-nil edge goes straight to a join block: nothing is done about the error
+				return "the non-nil branch is empty"
+			}
+			// region dominated by t
+			leaves := false
+			for _, blk := range b.Parent().Blocks {
+				if !(blk == t || t.Dominates(blk)) {
+					continue
+				}
+				for _, s := range blk.Succs {
+					if !(s == t || t.Dominates(s)) {
+						leaves = true
+					}
+				}
+			}
+			if leaves {
+				return "the non-nil branch falls back into the normal flow"
+			}
+		}
+	}
+	return ""
+}
+
